@@ -78,6 +78,9 @@ func ReadBlockFrom(r io.Reader) (int64, [][]string, error) {
 
 func ValidateBlockBytes(b []byte) (err error) {
 	var off int
+	if len(b) < 4 {
+		return fmt.Errorf("invalid block: too short")
+	}
 	n := int(binary.BigEndian.Uint32(b))
 	off += 4
 	for i := 0; i < n; i++ {
@@ -86,6 +89,9 @@ func ValidateBlockBytes(b []byte) (err error) {
 			return err
 		}
 		off += m
+	}
+	if off != len(b) {
+		return fmt.Errorf("invalid block: %d trailing bytes", len(b)-off)
 	}
 	return nil
 }
